@@ -221,6 +221,25 @@ class Family:
         w = k.get("witness")
         if not w:
             return False
+        if w.get("file"):
+            d = tempfile.mkdtemp(prefix="vf_c05k_")
+            try:
+                path = os.path.join(d, "k.csv")
+                pts = [V.build_point(t, tf) for t in w["points"]]
+                exp = [V.show_point(p) for p in pts]
+                try:
+                    db = tf.TinyFlux(path, encoding=w.get("encoding"), **w.get("dialect", {}))
+                    for p in pts:
+                        db.insert(p)
+                    db.close()
+                    db2 = tf.TinyFlux(path, encoding=w.get("encoding"), access_mode="r", **w.get("dialect", {}))
+                    got = [V.show_point(p) for p in db2.all(sorted=False)]
+                    db2.close()
+                except Exception:
+                    return True
+                return got != exp
+            finally:
+                shutil.rmtree(d, ignore_errors=True)
         p = V.build_point(w["point"], tf)
         row = list(p._serialize_to_list(compact_key_prefixes=w.get("compact", False)))
         q = tf.Point()._deserialize_from_list(row)
@@ -229,8 +248,6 @@ class Family:
 
 def signature(pt):
     t, m, tags, fields = pt
-    if m == "":
-        return "empty-measurement-written-as-sentinel"
     if any(v == "_none" for v in tags.values()):
         return "sentinel-text-as-tag-value"
     for v in fields.values():
